@@ -122,13 +122,16 @@ def _similar(a: str, b: str) -> bool:
     return x == y or difflib.SequenceMatcher(None, x, y).ratio() >= 0.45
 
 
+_BUILTIN_TYPES = {"int", "float", "str", "bytes", "bool", "list", "tuple", "dict", "set", "frozenset", "bytearray", "complex"}
+
+
 def _literal(v: ast.AST) -> bool:
     if isinstance(v, ast.Constant):
         return True
     if isinstance(v, ast.UnaryOp) and isinstance(v.op, (ast.USub, ast.UAdd)) and isinstance(v.operand, ast.Constant) and isinstance(v.operand.value, (int, float)):
         return True
     if isinstance(v, ast.Tuple):
-        return all(_literal(e) for e in v.elts)
+        return all(_literal(e) or (isinstance(e, ast.Name) and e.id in _BUILTIN_TYPES) for e in v.elts)
     return False
 
 
